@@ -7,8 +7,13 @@
             proposal shape re-establishes it; the prologue establishes it.  The roles of the sweep's
             state variables (running lower / upper bound, zone, target) are bound by dataflow: what
             reaches clamp_to_bounds' parameters, what the epilogue returns, what the prologue stores.
-            Private helpers of the class are interpreted.
-  C03.PURE  _calc_target_power and every helper it reaches use `self` only to call further methods;
+            Private helpers of the class are interpreted.  `isclose` against zero is equality only with
+            abs_tol = 0 and rel_tol < 1; with any other tolerance a non-zero value may count as zero
+            (both outcomes explored), so a tolerant zero exemption that hands the value on is reported.
+  C03.PURE  the target computation has no input besides (live proposals, system bounds): whatever a
+            call site feeds to a further parameter must not read instance state that earlier calls
+            left behind, nor the proposal that just arrived (seen through locals and methods);
+            _calc_target_power and every helper it reaches use `self` only to call further methods;
             on every symbolic path of calculate_target_power the target is computed from (this
             group's bucket, the bounds argument), the only bucket test is `is None`, and only the
             fresh value is stored / returned.
@@ -62,6 +67,14 @@ def check_quantity_truthiness(run: Run) -> None:
                                                    isclose[0].args.defaults)}
             if defaults.get("abs_tol") != "0.0":
                 raise AnalysisError(f"Quantity.isclose abs_tol default is {defaults.get('abs_tol')}, not 0.0")
+            try:
+                rel_ok = 0 <= float(defaults.get("rel_tol", "x")) < 1
+            except ValueError:
+                rel_ok = False
+            if not rel_ok:
+                raise AnalysisError(f"Quantity.isclose rel_tol default is {defaults.get('rel_tol')}, not in [0, 1)")
+            if [a.arg for a in isclose[0].args.args[1:]] != ["other", "rel_tol", "abs_tol"]:
+                raise AnalysisError("Quantity.isclose no longer has the parameters (other, rel_tol, abs_tol)")
     if not found:
         raise AnalysisError("class Quantity not found in the installed source")
     run.assume("frequenz.quantities.Quantity defines no __bool__/__len__ (truthiness == `is not "
@@ -152,7 +165,7 @@ def check_clamp(run: Run, prog: Program) -> None:
                           ("<=", excl.fields["upper"], ctx["U"])]]
             if any(it.possible(a) for a in alts):
                 bad.append(f"an admissible value {v} can be altered: result {res}")
-        return ("bad", bad) if bad else None
+        return ("bad", bad + _tolerance_hint(it)) if bad else None
 
     outs = it.explore(fn.node, make_args, post)
     _register(run, it)
@@ -161,6 +174,17 @@ def check_clamp(run: Run, prog: Program) -> None:
     run.extra_cov.setdefault("abstract_paths", {})["clamp_to_bounds"] = len(outs)
     if len(outs) < 40 and not _any_bad(outs):
         raise AnalysisError(f"clamp_to_bounds: only {len(outs)} abstract paths")
+
+
+def _tolerance_hint(it: RoleInterp) -> list[str]:
+    """On a failing abstract path that took a tolerant zero test: say so (the exemption of 0 W from the
+    exclusion zone holds for exact zero only; a value that merely counts as zero is still handed on)."""
+    if not it.tolerant:
+        return []
+    return [f"on this path `{it.tolerant[0]}` lets a NON-ZERO value pass as zero, and the value itself (not "
+            "0 W) is handed on: the zero exemption of the exclusion zone must be an exact test (abs_tol = 0 "
+            "and rel_tol < 1 — a positive abs_tol, rel_tol >= 1, a tolerance read from a variable, or the same "
+            "call with receiver and argument swapped all admit values strictly inside the zone)"]
 
 
 def _report_orderings(run: Run, rule: str, fn: FuncInfo, outs: list[Any], what: str) -> None:
@@ -329,13 +353,17 @@ class Sweep:
     """Anatomy of `_calc_target_power`: prologue / proposal loop / epilogue and the roles of the
     loop-carried variables, bound by dataflow (never by their names)."""
 
-    def __init__(self, prog: Program, fn: FuncInfo) -> None:
+    def __init__(self, prog: Program, fn: FuncInfo, inputs: dict[str, Any] | None = None) -> None:
         self.prog, self.fn = prog, fn
         self.mod = fn.module
-        if fn.cls is None or len(fn.params) != 3:
-            raise AnalysisError(f"{fn.qual}: expected a method (self, proposals, system_bounds)")
+        if fn.cls is None or len(fn.params) < 3 or is_static(fn) or fn.node.args.vararg or fn.node.args.kwarg:
+            raise AnalysisError(f"{fn.qual}: expected a method (self, proposals, system_bounds, ...)")
         self.cls = fn.cls
         self.params = fn.params
+        # values of the parameters beyond (self, proposals, system_bounds): a constant every call site
+        # agrees on, else a value the abstract run must not depend on (C03.PURE decides what is passed)
+        self.inputs: dict[str, Any] = {p: (inputs or {}).get(p, Poison(f"parameter {p} of the target computation"))
+                                       for p in fn.params[3:]}
         self.pro, self.loop, self.epi = split_sweep(fn)
         if self.loop.orelse or not isinstance(self.loop.target, ast.Name):
             raise AnalysisError(f"{fn.qual}: proposal loop with an else clause / a non-name target")
@@ -373,7 +401,7 @@ class Sweep:
         dummy = Obj("Proposal", preferred_power=None, bounds=Obj("Bounds", lower=None, upper=None),
                     priority=1, source_id="p")
         return {self.params[0]: self.receiver(), self.params[1]: [dummy],
-                self.params[2]: self.mk_sys(it, ctx, **kw)}
+                self.params[2]: self.mk_sys(it, ctx, **kw), **self.inputs}
 
     # -- roles
     def bind_roles(self) -> None:
@@ -462,7 +490,8 @@ class Sweep:
     def extra_args(self) -> dict[str, Any]:
         out: dict[str, Any] = {}
         for p in self.extra:
-            out[p] = self.receiver() if p == self.params[0] else Poison(f"parameter {p} inside the proposal loop")
+            out[p] = (self.receiver() if p == self.params[0] else self.inputs[p] if p in self.inputs
+                      else Poison(f"parameter {p} inside the proposal loop"))
         return out
 
     def roles_ok(self) -> bool:
@@ -581,7 +610,12 @@ def _callee_attrs(prog: Program, f: FuncInfo, call: Any, arg: ast.AST, kw: str |
 def check_sweep(run: Run, prog: Program, tier: str = "quick") -> None:
     fn = find_calc(prog)
     run.analysed(fn.qual)
-    sw = Sweep(prog, fn)
+    feeds = calc_inputs(prog, fn)
+    if report_calc_inputs(run, fn, feeds):
+        run.note("the sweep is not explored: the target computation is fed with something besides the live "
+                 "proposals and the system bounds")
+        return
+    sw = Sweep(prog, fn, const_inputs(feeds))
     svars, n = sw.svars, len(sw.svars)
     sw.bind_roles()
     # ---- the sweep returns the running target
@@ -763,6 +797,7 @@ def check_end_to_end(run: Run, prog: Program, n: int, shapes: list[tuple[int, in
     ctx: dict[str, Any] = {}
     if fn.cls is None:
         raise AnalysisError(f"{fn.qual} is not a method")
+    more = Sweep(prog, fn, const_inputs(calc_inputs(prog, fn))).inputs
 
     def make_args() -> dict[str, Any]:
         it.globals["__ZERO__"] = Atom("ZERO")
@@ -781,7 +816,7 @@ def check_end_to_end(run: Run, prog: Program, n: int, shapes: list[tuple[int, in
             props.append(p)
         ctx.update(incl=incl, excl=excl)
         return {fn.params[0]: self_obj(fn.cls), fn.params[1]: props,  # type: ignore[arg-type]
-                fn.params[2]: Obj("SystemBounds", inclusion_bounds=incl, exclusion_bounds=excl)}
+                fn.params[2]: Obj("SystemBounds", inclusion_bounds=incl, exclusion_bounds=excl), **more}
 
     def post(T: Any) -> Any:
         if not isinstance(T, Atom):
@@ -826,6 +861,229 @@ def reachable_code(prog: Program, fn: FuncInfo) -> list[FuncInfo]:
                 seen[tgt.qual] = tgt
                 work.append(tgt)
     return list(seen.values())
+
+
+# ---- inputs of the target computation --------------------------------------------------------
+_CONTAINERS = {"dict", "list", "set", "defaultdict", "OrderedDict", "deque", "Counter", "WeakValueDictionary"}
+_MUTATORS = {"add", "remove", "discard", "pop", "popitem", "clear", "update", "setdefault", "append", "extend",
+             "insert", "appendleft", "popleft", "__setitem__", "__delitem__", "difference_update",
+             "intersection_update", "symmetric_difference_update", "sort", "reverse"}
+
+
+def _self_attr(n: ast.AST, recv: str) -> str | None:
+    """X of an attribute chain / subscript chain rooted at `<recv>.X`."""
+    while isinstance(n, (ast.Subscript, ast.Attribute)) and not (
+            isinstance(n, ast.Attribute) and isinstance(n.value, ast.Name) and n.value.id == recv):
+        n = n.value
+    return n.attr if isinstance(n, ast.Attribute) else None
+
+
+def instance_state(prog: Program, cls: ClassInfo) -> dict[str, str]:
+    """Data attributes of the algorithm that carry state from one call to the next -> how we know: bound
+    or mutated outside `__init__`, or created in `__init__` as a container (it can only be filled later).
+    An attribute that `__init__` computes once from its own arguments is configuration, not state."""
+    cached = getattr(prog, "_c03_state", None)
+    if cached is not None and cached[0] is cls:
+        return cached[1]
+    ranked: dict[str, tuple[int, str]] = {}
+
+    def note(x: str, rank: int, why: str) -> None:
+        if x not in ranked or rank < ranked[x][0]:
+            ranked[x] = (rank, why)
+
+    for c in prog.mro(cls):
+        for m in c.methods.values():
+            if not m.params or is_static(m):
+                continue
+            recv, init = m.params[0], m.name == "__init__"
+            for n in body_walk(m.node):
+                tgts: list[ast.AST] = []
+                val: ast.AST | None = None
+                if isinstance(n, (ast.Assign, ast.Delete)):
+                    tgts = list(n.targets)
+                    val = n.value if isinstance(n, ast.Assign) else None
+                elif isinstance(n, (ast.AugAssign, ast.AnnAssign)):
+                    tgts, val = [n.target], n.value
+                elif isinstance(n, ast.Call) and isinstance(n.func, ast.Attribute) and n.func.attr in _MUTATORS:
+                    x = _self_attr(n.func.value, recv)
+                    if x is not None and not init:
+                        note(x, 1, f"{m.name} calls .{n.func.attr}() on it")
+                for t in tgts:
+                    for e in (t.elts if isinstance(t, (ast.Tuple, ast.List)) else [t]):
+                        x = _self_attr(e, recv)
+                        if x is None:
+                            continue
+                        plain = isinstance(e, ast.Attribute) and isinstance(e.value, ast.Name)
+                        if not init or not plain or isinstance(n, (ast.AugAssign, ast.Delete)):
+                            note(x, 0, f"{m.name} writes it")
+                        elif val is not None and (
+                                isinstance(val, (ast.Dict, ast.List, ast.Set, ast.DictComp, ast.ListComp, ast.SetComp))
+                                or (isinstance(val, ast.Call) and u(val.func).split("[")[0].split(".")[-1] in _CONTAINERS)):
+                            note(x, 2, "a container created in __init__ that only later calls can fill")
+    out = {x: why for x, (_r, why) in ranked.items()}
+    prog._c03_state = (cls, out)  # type: ignore[attr-defined]
+    return out
+
+
+def _closure(f: FuncInfo, expr: ast.AST) -> tuple[list[ast.AST], bool]:
+    """`expr` and, transitively, every value `f` assigns to a local that it mentions.  The flag says
+    whether every such local is bound by plain assignments only (then the list is everything the value
+    of `expr` can be computed from)."""
+    params = set(f.params)
+    binds: dict[str, list[ast.AST | None]] = {}
+    for n in body_walk(f.node):
+        if isinstance(n, ast.Assign):
+            for t in n.targets:
+                if isinstance(t, ast.Name):
+                    binds.setdefault(t.id, []).append(n.value)
+                else:
+                    for x in ast.walk(t):
+                        if isinstance(x, ast.Name) and isinstance(x.ctx, ast.Store):
+                            binds.setdefault(x.id, []).append(None)
+        elif isinstance(n, (ast.AnnAssign, ast.AugAssign)) and isinstance(n.target, ast.Name):
+            if n.value is not None:
+                binds.setdefault(n.target.id, []).append(n.value)
+        elif isinstance(n, ast.NamedExpr) and isinstance(n.target, ast.Name):
+            binds.setdefault(n.target.id, []).append(n.value)
+        elif isinstance(n, (ast.For, ast.AsyncFor, ast.comprehension)):
+            for x in ast.walk(n.target):
+                if isinstance(x, ast.Name):
+                    binds.setdefault(x.id, []).append(None)
+        elif isinstance(n, (ast.With, ast.AsyncWith)):
+            for i in n.items:
+                for x in ast.walk(i.optional_vars) if i.optional_vars is not None else []:
+                    if isinstance(x, ast.Name):
+                        binds.setdefault(x.id, []).append(None)
+        elif isinstance(n, (ast.MatchAs, ast.MatchStar)) and n.name:
+            binds.setdefault(n.name, []).append(None)
+        elif isinstance(n, ast.ExceptHandler) and n.name:
+            binds.setdefault(n.name, []).append(None)
+    out, complete, seen, work = [expr], True, set(), [expr]
+    while work:
+        e = work.pop()
+        for x in ast.walk(e):
+            if isinstance(x, ast.Name) and isinstance(x.ctx, ast.Load) and x.id not in params and x.id not in seen \
+                    and x.id in binds:
+                seen.add(x.id)
+                for v in binds[x.id]:
+                    if v is None:
+                        complete = False
+                    else:
+                        out.append(v)
+                        work.append(v)
+    return out, complete
+
+
+def _state_reads(prog: Program, f: FuncInfo, exprs: list[ast.AST], depth: int = 4) -> list[tuple[str, str]]:
+    """(attribute, why it is state) for every piece of instance state the expressions read, also
+    through the methods / properties of the instance that they call."""
+    if f.cls is None or not f.params or is_static(f):
+        return []
+    recv, state = f.params[0], instance_state(prog, f.cls)
+    out: list[tuple[str, str]] = []
+    for e in exprs:
+        for n in ast.walk(e):
+            if isinstance(n, ast.Attribute) and isinstance(n.value, ast.Name) and n.value.id == recv:
+                m = prog.resolve_method(f.cls, n.attr)
+                if m is not None:
+                    if depth > 0:
+                        for g in reachable_code(prog, m):
+                            out += [(x, f"{why}; read by {g.name}()") for x, why in
+                                    _state_reads(prog, g, list(g.node.body), 0)]
+                elif n.attr in state:
+                    out.append((n.attr, state[n.attr]))
+    return out
+
+
+def calc_inputs(prog: Program, calc: FuncInfo) -> list[dict[str, Any]]:
+    """What every call of the target computation (anywhere in its class) feeds to each parameter beyond
+    (self, proposals, system_bounds), seen through the caller's locals.  verdict:
+      history  reads instance state that earlier calls left behind (other than the proposal buckets)
+      arrival  is computed from the proposal that just arrived (not from the live set as a whole)
+      const    a literal
+      other    anything else (the abstract run of the sweep must then not depend on it)"""
+    cls = calc.cls
+    if cls is None or len(calc.params) < 3:
+        raise AnalysisError(f"{calc.qual}: expected a method (self, proposals, system_bounds, ...)")
+    a = calc.node.args
+    pos_params = [x.arg for x in a.posonlyargs + a.args][1:]
+    defaults: dict[str, ast.AST] = dict(zip([x.arg for x in a.posonlyargs + a.args][-len(a.defaults):], a.defaults)) \
+        if a.defaults else {}
+    defaults.update({k.arg: d for k, d in zip(a.kwonlyargs, a.kw_defaults) if d is not None})
+    extras = calc.params[3:]
+    used = {n.id for n in body_walk(calc.node) if isinstance(n, ast.Name) and isinstance(n.ctx, ast.Load)}
+    ct = prog.resolve_method(cls, "calculate_target_power")
+    out: list[dict[str, Any]] = []
+    for f in cls.methods.values():
+        recv = {f.params[0], "cls"} if f.params and not is_static(f) else set()
+        for c in (n for n in body_walk(f.node) if isinstance(n, ast.Call)):
+            if not (isinstance(c.func, ast.Attribute) and c.func.attr == calc.name and isinstance(c.func.value, ast.Name)
+                    and (c.func.value.id in recv or c.func.value.id == cls.name)):
+                continue
+            if any(isinstance(x, ast.Starred) for x in c.args) or any(k.arg is None for k in c.keywords):
+                raise AnalysisError(f"{f.qual}: {u(c)[:80]} unpacks its arguments: not modelled")
+            given: dict[str, ast.AST] = dict(zip(pos_params, c.args))
+            given.update({k.arg: k.value for k in c.keywords if k.arg is not None})
+            feeds: list[tuple[str, ast.AST | None, bool]] = [(p, given.get(p, defaults.get(p)), p in given) for p in extras]
+            feeds += [(f"<argument {i + 1}>", x, True) for i, x in enumerate(c.args) if i >= len(pos_params)]
+            feeds += [(f"<keyword {k}>", v, True) for k, v in given.items() if k not in calc.params]
+            for p, expr, passed in feeds:
+                if expr is None:
+                    raise AnalysisError(f"{f.qual}: {u(c)[:80]} gives no value for parameter {p}")
+                exprs, complete = _closure(f, expr) if passed else ([expr], True)
+                reads = _state_reads(prog, f, exprs) if passed else []
+                reads = [(x, why) for x, why in reads if x != "_component_buckets"]
+                newest = ct is not None and f is ct and len(ct.params) > 2 and any(
+                    isinstance(n, ast.Name) and n.id == ct.params[2] for e in exprs for n in ast.walk(e))
+                lit = expr.operand if isinstance(expr, ast.UnaryOp) and isinstance(expr.op, (ast.USub, ast.Not)) else expr
+                verdict = ("history" if reads else "arrival" if newest else
+                           "const" if isinstance(lit, ast.Constant) and complete else "other")
+                if p in extras and p not in used and verdict in ("history", "arrival"):
+                    verdict = "other"   # handed over but never looked at
+                out.append({"param": p, "caller": f, "call": c, "expr": expr, "verdict": verdict, "reads": reads})
+    return out
+
+
+def const_inputs(feeds: list[dict[str, Any]]) -> dict[str, Any]:
+    """Extra parameters that every call site feeds with the same literal."""
+    vals: dict[str, set[str]] = {}
+    for d in feeds:
+        vals.setdefault(d["param"], set()).add(u(d["expr"]) if d["verdict"] == "const" else "<?>")
+    out: dict[str, Any] = {}
+    for p, vs in vals.items():
+        if len(vs) == 1 and "<?>" not in vs:
+            try:
+                out[p] = ast.literal_eval(next(iter(vs)))
+            except (ValueError, SyntaxError):
+                pass
+    return out
+
+
+def report_calc_inputs(run: Run, calc: FuncInfo, feeds: list[dict[str, Any]]) -> bool:
+    """C03.PURE: the target is a function of the live proposal set and the system bounds — nothing that
+    remembers earlier calls, and nothing that singles out the latest arrival, is handed in as well."""
+    bad = False
+    for d in feeds:
+        f, c, p = d["caller"], d["call"], d["param"]
+        if d["verdict"] == "history":
+            x, why = d["reads"][0]
+            msg = (f"the target computation {calc.name} is fed, as {p}, with `{u(d['expr'])[:90]}`, which reads the "
+                   f"instance state self.{x} ({why}): what an earlier calculation left behind becomes an input of the "
+                   "next one, so the same live proposals and system bounds can yield different targets depending on "
+                   "the proposals that arrived (and were replaced or expired) before and on their arrival order. The "
+                   "target must be a function of the live proposal set and the system bounds only — feeding back the "
+                   "previous target, a target of another group, a counter or a timestamp kept on the instance are all "
+                   "excluded, whether passed directly, through a local or through a method of the instance")
+        elif d["verdict"] == "arrival":
+            msg = (f"the target computation {calc.name} is fed, as {p}, with `{u(d['expr'])[:90]}`, computed from the "
+                   "proposal that has just arrived: the target then depends on which proposal came last, not only "
+                   "on the set of live proposals and the system bounds")
+        else:
+            run.ok("C03.PURE", f"{f.qual} :: {p} of {calc.name} <- {u(d['expr'])[:60]} ({d['verdict']})")
+            continue
+        bad = True
+        run.violation("C03.PURE", f.qual, f"{p} = {u(d['expr'])[:90]}", msg, node=c, file=f.file)
+    return bad
 
 
 CALC_HINT = "_calc_target_power"
@@ -892,6 +1150,8 @@ def _is_calc_call(c: ast.AST) -> bool:
 def check_pure(run: Run, prog: Program) -> None:
     calc, ct, paths = _ctp_paths(prog)
     v0 = len(run.violations)
+    # ---- the computation has no input besides the live proposals and the system bounds
+    report_calc_inputs(run, calc, calc_inputs(prog, calc))
     # ---- the computation (and everything it reaches) uses `self` only to call further methods
     for f in reachable_code(prog, calc):
         run.analysed(f.qual)
@@ -933,7 +1193,7 @@ def check_pure(run: Run, prog: Program) -> None:
         args = positional(call, calc.params[1:])  # type: ignore[arg-type]
         a_bucket = u(args.get(calc.params[1])).replace(" ", "")
         a_bounds = u(args.get(calc.params[2]))
-        ok = len(args) == 2 and a_bounds == bounds_param and a_bucket in {k.replace(" ", "") for k in bucket_forms}
+        ok = a_bounds == bounds_param and a_bucket in {k.replace(" ", "") for k in bucket_forms}
         run.check(ok, "C03.PURE", ct.qual, call,
                   "the target is not computed from exactly (this group's bucket, the bounds argument)",
                   node=call, file=ct.file, path=p.describe(), instance=f"{ct.qual} :: arguments on path {_pid(p)}")
@@ -1515,11 +1775,16 @@ CONTROLS = [
     ("received proposal dropped by the actor", ACTOR.split(":")[0],
      "                await self._send_updated_target_power(\n                    proposal.component_ids, proposal, must_send=True\n                )\n",
      "                pass\n", "C03.REPL"),
+    ("zero exemption of the exclusion zone with a tolerance", BOUNDS,
+     "not value.isclose(Power.zero())", "not value.isclose(Power.zero(), abs_tol=0.5)", "C03.ENV"),
+    ("previous target fed back into the target computation", MAT,
+     "self._calc_target_power(proposals, system_bounds)",
+     "self._calc_target_power(proposals, system_bounds, self._target_power.get(component_ids))", "C03.PURE"),
 ]
 
 
 def structural_controls(prog: Program) -> list[tuple[str, str, str, str, str]]:  # noqa: C901
-    """The seven controls located by structure in the tree under analysis (whole source -> patched
+    """The controls located by structure in the tree under analysis (whole source -> patched
     source), so that they apply to any surface form of the anchors; a site that cannot be located
     falls back to the textual control."""
     built: dict[str, tuple[str, str]] = {}
@@ -1649,6 +1914,27 @@ def structural_controls(prog: Program) -> list[tuple[str, str, str, str, str]]: 
         sends = [x for b in arm.body for x in ast.walk(b) if isinstance(x, ast.Expr) and hands_over(x)]
         if len(sends) == 1:
             add(CONTROLS[12][0], amod, [(sends[0], "pass")])
+    # -- the zero test that exempts 0 W from the exclusion zone gets a tolerance
+    for f in reachable_code(prog, clamp):
+        if f.module.name != prog.module(BOUNDS).name:
+            continue
+        close = [n for n in body_walk(f.node) if isinstance(n, ast.Call) and isinstance(n.func, ast.Attribute)
+                 and n.func.attr == "isclose" and len(n.args) == 1 and not n.keywords]
+        if len(close) == 1:
+            add(CONTROLS[13][0], BOUNDS, [(close[0], f"{seg(bsrc, close[0].func)}({seg(bsrc, close[0].args[0])}, abs_tol=0.5)")])
+            break
+    # -- the stored target becomes a further input of the target computation
+    sites = [n for n in body_walk(ct.node) if _is_calc_call(n) and isinstance(n, ast.Call) and n.args and not n.keywords]
+    ca = calc.node.args
+    rets_c = [n for n in calc.node.body if isinstance(n, ast.Return) and n.value is not None]
+    if len(sites) == 1 and ca.args and not ca.kwonlyargs and not ca.vararg and not ca.kwarg and len(rets_c) == 1 \
+            and calc.module.name == prog.module(MAT).name and len(ct.params) > 1:
+        last = ca.args[-1]
+        add(CONTROLS[14][0], MAT, [
+            (last, f"{seg(msrc, last)}, c03_prev=None"),
+            (rets_c[0].value, f"({seg(msrc, rets_c[0].value)}) if c03_prev is None else c03_prev"),  # type: ignore[list-item]
+            (sites[0], f"{seg(msrc, sites[0].func)}({', '.join(seg(msrc, x) for x in sites[0].args)}, "
+                       f"{ct.params[0]}._target_power.get({ct.params[1]}))")])
     out = []
     for i, (name, module, old, new, rule) in enumerate(CONTROLS):
         if name in built:
